@@ -162,6 +162,14 @@ func deepClone(rv reflect.Value) reflect.Value {
 		newPtr.Elem().Set(deepClone(rv.Elem()))
 		return newPtr
 
+	case reflect.Interface:
+		if rv.IsNil() {
+			return rv
+		}
+		newIface := reflect.New(rv.Type()).Elem()
+		newIface.Set(deepClone(rv.Elem()))
+		return newIface
+
 	case reflect.Struct:
 		newStruct := reflect.New(rv.Type()).Elem()
 		for i := range rv.NumField() {
